@@ -189,9 +189,23 @@ theorem code_malformed_changes_nothing (c : Connection S) (data : Mimic.Py.Bytes
     (Mimic.Extracted.ParsersCode.parse_com_stmt_send_long_data (S := S) data = none → handle_stmt_send_long_data c data = .error c) :=
   malformed_changes_nothing c data
 
+/-- **`handle_stmt_prepare` is the model's prepare**: the new statement is registered under the next id of the sequence
+    (no cursor yet), no other statement changes, and the next id counts up modulo the extracted `_MAX_PREPARED_STMT_ID` -/
+theorem prepare_is_code (row : Mimic.Py.Bytes → Nat) (E : Mimic.Py.Env S) (cp : S → Nat) (pc : Nat → Mimic.Py.Bytes) (c : Connection S)
+    (data : Mimic.Py.Bytes) (sql : S) (hd : E.decode c.client_charset data = some sql)
+    (hs : c.prepared_stmt_seq.size = some maxPreparedStmtId) :
+    ∃ c', handle_stmt_prepare E cp pc c data = .ok c' ∧
+      absStmts row c' = (step ⟨absStmts row c, c.prepared_stmt_seq.value⟩ .prepare).1.stmts ∧
+      c'.prepared_stmt_seq.value = (step ⟨absStmts row c, c.prepared_stmt_seq.value⟩ .prepare).1.next ∧
+      c'.prepared_stmt_seq.size = some maxPreparedStmtId :=
+  handle_stmt_prepare_refines row E cp pc c data sql hd hs
+
+/-- the id space the model counts in is the code's `Connection._MAX_PREPARED_STMT_ID` (extracted) -/
+theorem stmt_id_space : maxPreparedStmtId = 4294967296 := by decide
+
 /-- non-vacuity: a concrete connection with one statement whose cursor holds three packets; fetches of 2 and 5 -/
 example :
-    let c : Connection Unit := ⟨0, 0, [(7, ⟨7, (), 0, none, some ⟨[[1], [2], [3]], false⟩⟩)], []⟩
+    let c : Connection Unit := ⟨0, 0, [(7, ⟨7, (), 0, none, some ⟨[[1], [2], [3]], false⟩⟩)], [], ⟨some maxPreparedStmtId, 8⟩, 45, 45⟩
     let d (n : UInt8) : Mimic.Py.Bytes := [7, 0, 0, 0, n, 0, 0, 0]
     rowsOut (runFetches c [d 2, d 5]).out = [[1], [2], [3]] := by decide
 
